@@ -222,6 +222,82 @@ func init() {
 				}
 			}
 		}
+		// exhaustive over the two bit-packed header bytes: V, P, X, CC | M, PT  (2^16 cases)
+		for b0 := 0; b0 < 256; b0++ {
+			for b1 := 0; b1 < 256; b1++ {
+				b0, b1 := b0, b1
+				x.Case(func(c *Case) {
+					p := &PacketIn{}
+					p.H.Version = uint8(b0 >> 6)
+					p.H.Padding = b0>>5&1 == 1
+					p.H.Extension = b0>>4&1 == 1
+					p.H.CSRC = make([]uint32, b0&15)
+					for i := range p.H.CSRC {
+						p.H.CSRC[i] = uint32(c.R.U64())
+					}
+					p.H.Marker = b1>>7 == 1
+					p.H.PayloadType = uint8(b1 & 127)
+					p.H.SequenceNumber = uint16(c.R.Intn(65536))
+					p.H.Timestamp = uint32(c.R.U64())
+					p.H.SSRC = uint32(c.R.U64())
+					if p.H.Extension {
+						p.H.ExtensionProfile = 0xBEDE
+						p.Exts = []ExtIn{{uint8(c.R.Range(1, 14)), c.R.Bytes(c.R.Range(1, 16))}}
+					}
+					if p.H.Padding {
+						p.PadSize = uint8(c.R.Range(1, 255))
+					}
+					p.Payload = c.R.Bytes(c.R.Intn(4))
+					c.Tag("hdrbits-exhaustive")
+					observeC01(c, p, nil)
+				})
+			}
+		}
+		// exhaustive over the element headers: one-byte id x length; two-byte id x length
+		// (quick: boundary ids, every length; thorough: every id, every length)
+		for id := 1; id <= 14; id++ {
+			for l := 1; l <= 16; l++ {
+				id, l := id, l
+				x.Case(func(c *Case) {
+					p := &PacketIn{}
+					genFixed(c.R, &p.H)
+					p.H.Extension = true
+					p.H.ExtensionProfile = 0xBEDE
+					p.Exts = []ExtIn{{uint8(id), c.R.Bytes(l)}}
+					if c.R.Bool() {
+						p.Exts = append(p.Exts, ExtIn{uint8(1 + id%14), c.R.Bytes(c.R.Range(1, 16))})
+					}
+					p.Payload = c.R.Bytes(c.R.Intn(3))
+					c.Tag("elemhdr-exhaustive")
+					observeC01(c, p, nil)
+				})
+			}
+		}
+		twoIDs := []int{1, 2, 14, 15, 16, 127, 128, 254, 255}
+		if x.Thorough() {
+			twoIDs = nil
+			for id := 1; id <= 255; id++ {
+				twoIDs = append(twoIDs, id)
+			}
+		}
+		for _, id := range twoIDs {
+			for l := 0; l <= 255; l++ {
+				id, l := id, l
+				x.Case(func(c *Case) {
+					p := &PacketIn{}
+					genFixed(c.R, &p.H)
+					p.H.Extension = true
+					p.H.ExtensionProfile = 0x1000
+					p.Exts = []ExtIn{{uint8(id), c.R.Bytes(l)}}
+					if c.R.Bool() {
+						p.Exts = append(p.Exts, ExtIn{uint8(1 + id%255), c.R.Bytes(c.R.Intn(5))})
+					}
+					p.Payload = c.R.Bytes(c.R.Intn(3))
+					c.Tag("elemhdr-exhaustive")
+					observeC01(c, p, nil)
+				})
+			}
+		}
 		maxPl := 1500
 		if x.Thorough() {
 			maxPl = 20000
@@ -482,6 +558,42 @@ func init() {
 				}
 			}
 		}
+		// every destination length 0 … size+3 for a few dozen representative packets, dirty buffer
+		for rep := 0; rep < 48; rep++ {
+			for n := 0; n <= 90; n++ {
+				rep, n := rep, n
+				x.Case(func(c *Case) {
+					// the packet depends on `rep` only (its own PRNG), the destination on the case
+					r := newRand(x.Seed, "c04.to/rep", rep)
+					p := &PacketIn{}
+					genFixed(r, &p.H)
+					p.H.CSRC = make([]uint32, r.Pick(0, 1, 2))
+					kind := rep % 4
+					if kind != profNone {
+						p.H.Extension = true
+						p.H.ExtensionProfile, p.Exts = genExts(r, kind, 2)
+						for i := range p.Exts {
+							if len(p.Exts[i].Payload) > 8 {
+								p.Exts[i].Payload = p.Exts[i].Payload[:8]
+							}
+						}
+					}
+					p.Payload = r.Bytes(r.Intn(6))
+					if rep%3 != 0 {
+						p.H.Padding = true
+						p.PadSize = uint8(r.Range(1, 9))
+					}
+					size := p.Build().MarshalSize()
+					if n > size+3 {
+						c.Trivial()
+						n = size + 3
+					}
+					c.Tag("every-length")
+					tagPacket(c, p)
+					observeC04(c, p, fillDst(c.R, n, c.R.Pick(1, 2, 3)))
+				})
+			}
+		}
 		maxPl := 600
 		if x.Thorough() {
 			maxPl = 8000
@@ -633,9 +745,11 @@ func marshalTok(t *Toks, p *rtp.Packet) {
 
 func observeC20(c *Case, in *PacketIn, extsNil bool, m c20Mut, onClone bool) {
 	orig := buildC20(in, extsNil)
+	orig.Header.PayloadOffset = c.R.Pick(0, 12, 16, c.R.Intn(2000)) // deprecated, but a header field: Clone must carry it
 	nils := nilsOfHeader(&orig.Header)
 	nils.payload = orig.Payload == nil
 	writePacketIn(&c.I, in)
+	c.I.Nat(orig.Header.PayloadOffset)
 	writeNils(&c.I, nils, true)
 	c.I.Nat(m.kind).Nat(m.a).Nat(m.b).Bytes(m.bs).Bool(onClone)
 
@@ -649,6 +763,7 @@ func observeC20(c *Case, in *PacketIn, extsNil bool, m c20Mut, onClone bool) {
 	cn := nilsOfHeader(&clone.Header)
 	cn.payload = clone.Payload == nil
 	writeNils(&c.O, cn, true)
+	c.O.Nat(clone.Header.PayloadOffset)
 	origBytes := byteSlicesOf(&orig.Header, orig.Payload)
 	c.O.Bool(anyOverlap([][]byte{clone.Payload}, origBytes))
 	c.O.Bool(overlaps(csrcBytes(clone.CSRC), csrcBytes(orig.CSRC)))
@@ -659,6 +774,7 @@ func observeC20(c *Case, in *PacketIn, extsNil bool, m c20Mut, onClone bool) {
 	writeHeaderObs(&c.O, &hc)
 	c.O.Nat(int(hc.ExtensionProfile))
 	writeNils(&c.O, nilsOfHeader(&hc), false)
+	c.O.Nat(hc.PayloadOffset)
 	c.O.Bool(overlaps(csrcBytes(hc.CSRC), csrcBytes(orig.CSRC)))
 	c.O.Bool(overlaps(extArrayBytes(hc.Extensions), extArrayBytes(orig.Extensions)))
 	c.O.Bool(anyOverlap(byteSlicesOf(&hc), origBytes))
@@ -678,6 +794,9 @@ func observeC20(c *Case, in *PacketIn, extsNil bool, m c20Mut, onClone bool) {
 	}
 	writeSide(&c.O, other)
 	marshalTok(&c.O, other)
+	// the header clone taken before the mutation must not have moved either
+	writeHeaderObs(&c.O, &hc)
+	c.O.Nat(int(hc.ExtensionProfile))
 }
 
 // genMut draws a mutation that is usually effective on the given packet.
